@@ -1090,7 +1090,7 @@ pub fn main(opts: &Opts) {
     }
     let nr = if opts.thorough() { 8000 } else { 600 };
     let mut rlines: Vec<String> = vec![];
-    let mut rsegments: Vec<(usize, usize, RCase, RObserved, usize)> = vec![];
+    let mut rsegments: Vec<(usize, usize, RCase, RObserved, usize, usize)> = vec![];
     for k in 0..(nr + rcorpus.len() as u64) {
         let case = if (k as usize) < rcorpus.len() { rcorpus[k as usize].clone() } else { gen_rcase(&mut rng) };
         let obs = run_receiver(&case);
@@ -1129,7 +1129,24 @@ pub fn main(opts: &Opts) {
                 rlines.push(format!("Y indisp {} {} 1", case.first_id.wrapping_add(*a as u32), case.first_id.wrapping_add(*b as u32)));
             }
             rlines.push("Y unsettled".into());
-            rsegments.push((start, rlines.len(), case.clone(), obs.clone(), n_disp));
+            // the batch disposals as the model of `dispose_all` cuts them (Amqp.Dispose): one line per call,
+            // the batch sorted by delivery-id and without the deliveries that are no longer unsettled
+            let mut gone: Vec<bool> = vec![false; case.n];
+            let a0 = rlines.len();
+            for (idx, _code) in &case.disposals {
+                let mut v: Vec<usize> = idx.iter().copied().filter(|k| !gone[*k]).collect();
+                if idx.len() > 1 {
+                    v.sort_by_key(|k| case.first_id.wrapping_add(*k as u32));
+                }
+                let words: Vec<String> = v.iter().map(|k| format!("{}:{}", case.first_id.wrapping_add(*k as u32), match case.modes.get(*k).copied().unwrap_or(0) { 1 => "0", 2 => "1", _ => "-" })).collect();
+                rlines.push(format!("A batch {}", words.join(" ")));
+                for k in v {
+                    if !case.second(k) {
+                        gone[k] = true;
+                    }
+                }
+            }
+            rsegments.push((start, rlines.len(), case.clone(), obs.clone(), n_disp, a0 - start));
         }
     }
     if driver_available() && !rlines.is_empty() {
@@ -1138,8 +1155,30 @@ pub fn main(opts: &Opts) {
                 report.model_used = true;
                 report.model_lines += model.len() as u64;
                 let mut bad = 0u64;
-                for (start, end, case, obs, n_disp) in &rsegments {
-                    let m = &model[*start..*end];
+                for (start, end, case, obs, n_disp, a0) in &rsegments {
+                    let m = &model[*start..*start + *a0];
+                    // the ranges on the wire are the ranges the model of dispose_all writes, call by call
+                    let mut want_ranges: Vec<(u32, u32)> = vec![];
+                    for line in &model[*start + *a0..*end] {
+                        if let Some(d) = line.split("disps=").nth(1) {
+                            for r in d.split(';').filter(|x| !x.is_empty()) {
+                                let fl = r.split('/').next().unwrap_or("");
+                                let mut it = fl.split('-');
+                                if let (Some(a), Some(b)) = (it.next().and_then(|x| x.parse().ok()), it.next().and_then(|x| x.parse().ok())) {
+                                    want_ranges.push((a, b));
+                                }
+                            }
+                        }
+                    }
+                    let got_ranges: Vec<(u32, u32)> = obs.dispositions.iter().map(|(f, l, _, _)| (*f, *l)).collect();
+                    if want_ranges != got_ranges {
+                        report.finding(Finding {
+                            kind: "disagreement",
+                            key: "dispose-all-model".into(),
+                            description: format!("the dispositions on the wire {:?} are not the ones the model of dispose_all writes {:?} for the disposal calls {:?} (first id {}, per-transfer modes {:?})", got_ranges, want_ranges, case.disposals, case.first_id, case.modes),
+                            replay: json!({"property": "C02", "module": "settle", "rcase": case.to_json(), "model_lines": &rlines[*start + *a0..*end], "model": &model[*start + *a0..*end]}),
+                        });
+                    }
                     let d0 = 1 + case.n;
                     // model dispositions, one per delivery
                     let mut md: Vec<(u32, bool, String)> = vec![];
